@@ -22,7 +22,7 @@ RULE = ("seeded histories: one circuit object reused 1-20 times as argument of a
 MANDATORY = ["ungrouped_add_ancilla_inside_span", "child_edited_after_add", "reject:mode_out_of_range",
              "reject:equal_modes", "reject:reflectivity", "reject:loss", "reject:convention", "reject:herald_type",
              "reject:duplicate_herald", "reject:incomplete_swaps", "reject:oversize_add",
-             "reject:oversize_add_trailing_ancilla", "reject:plus_size", "reject:noninteger_mode",
+             "reject:oversize_add_trailing_ancilla", "reject:oversize_add_heralded_child", "reject:plus_size", "reject:noninteger_mode",
              "shared_instances_checked", "passed_to:Simulator", "passed_to:Sampler", "passed_to:QuickSampler",
              "passed_to:Analyzer", "passed_to:Reck", "passed_to:Display", "passed_to:tomography", "converter_run"]
 DECIDING = ["mon.arg_fingerprints_compared", "mon.reject_atomicity_checks", "parent_stability_comparisons",
@@ -40,6 +40,15 @@ def reject_cases(lw, rng, c, nn):
     child_big.bs(0)
     small = lw.Circuit(2)
     small.bs(0)
+    # heralded children: oversize by their *visible* size, whatever the number of heralds
+    her_big = lw.Circuit(nn + 2)
+    her_big.bs(0)
+    her_big.herald(int(rng.integers(0, 2)), int(rng.integers(nn + 2)))
+    her_small = lw.Circuit(3)
+    her_small.bs(0); her_small.bs(1)
+    hm = int(rng.integers(3))
+    her_small.herald(int(rng.integers(0, 2)), hm, int(rng.integers(3)) if rng.random() < 0.5 else hm)
+    grp = bool(rng.random() < 0.5)
     out = [
         ("mode_out_of_range", lambda: c.bs(0, n_big)),
         ("mode_out_of_range", lambda: c.bs(-1 - int(rng.integers(2)), 0)),
@@ -65,7 +74,10 @@ def reject_cases(lw, rng, c, nn):
         ("incomplete_swaps", lambda: c.mode_swaps({0: 1})),
         ("incomplete_swaps", lambda: c.mode_swaps({0: 1, 1: 1})),
         ("oversize_add", lambda: c.add(child_big, 0)),
-        ("oversize_add", lambda: c.add(small, nn - 1)),
+        ("oversize_add", lambda: c.add(small, nn - 1, grp)),
+        ("oversize_add_heralded_child", lambda: c.add(her_big, 0, grp)),
+        ("oversize_add_heralded_child", lambda: c.add(her_small, nn - 1, grp)),
+        ("mode_out_of_range", lambda: c.add(her_small, n_big)),
         ("plus_size", lambda: c + child_big),
         ("add_non_circuit", lambda: c.add(np.eye(2), 0)),
     ]
